@@ -1,10 +1,10 @@
 //! C12 — evaluate_v: lazily, in order, each argument evaluated with the segment that direct
 //! evaluation selects for the running maximum (== pointwise evaluation for non-decreasing input).
 
-use crate::flat::*;
-use crate::gen::*;
-use crate::mon::*;
-use crate::probe::*;
+use ppv::flat::*;
+use ppv::gen::*;
+use ppv::mon::*;
+use ppv::probe::*;
 use piecewise_polynomial::*;
 use serde_json::json;
 use std::cell::Cell;
